@@ -438,6 +438,8 @@ def expected_obs(ok_calls):
     batches = iongen.forest_of_calls([normal_call(c) for c in ok_calls])
     if batches and batches[-1] is None:
         return None
+    if iongen.writes_top_level_table(batches):
+        return None               # the calls spell a local symbol table at the top level: not a user value (see iongen)
     return " ".join(x for x in (iongen.show_forest(b) for b in batches) if x)
 
 
